@@ -1,4 +1,4 @@
-(* C09: what the faithful model refutes (F9a zero Next, F9b overlapping start schedules), as witnesses computed
+(* C09: what the faithful model refutes (F9b overlapping start schedules), as witnesses computed
    by vm_compute, and concrete histories showing that the premises of the theorems are
    satisfiable.  The witnesses are the inputs replayed on the real code by tools/props/C09.py (findings/). *)
 From Coq Require Import List Bool Arith ZArith Lia String.
@@ -90,38 +90,25 @@ Definition d_f9b := [("d0.yaml", file (SList [IStr "* * * * *"; IStr "*/2 * * * 
 Definition d_f13a := [("d0.yaml", file (SStr "* * * * *")); ("d1.yaml", file (SMap [(KStr "begin", MStr "* * * * *")]))].
 Definition d_good := [("d0.yaml", file (SStr "* * * * *")); ("zz.yaml", CBad)].
 
-(* F9a: a start schedule that never fires within the horizon starts a DAG that never ran - the full statement
-   "a Start is issued only if a start schedule matches m" is false *)
-Theorem start_iff_refuted : exists s m f e,
-  NoDup (map fst (tbl s)) /\ alive s = true /\ lookup f (tbl s) = Some e /\
-  forallb (fun sp => negb (matches sp m)) (starts e) = true /\ In (CStart f) (tick_calls s m).
-Proof.
-  exists (after d_f9a_start [ORestart]), m0, "d0.yaml", (entry_of (after d_f9a_start [ORestart]) "d0.yaml").
-  split; [apply nodupb_ok; vm_compute; reflexivity|].
-  split; [vm_compute; reflexivity|]. split; [vm_compute; reflexivity|]. split; [vm_compute; reflexivity|].
-  vm_compute. left. reflexivity.
-Qed.
+(* The former F9a witnesses: a schedule that never fires within the horizon ('0 0 30 2 *') as start, restart and
+   stop schedule.  The zero time returned by Next is skipped now: no call at any tick. *)
+Example former_zero_next_is_silent :
+  run (init_state d_f9a_start) [ORestart; OTick m0 (60 * m0); OTick (m0 + 1) (60 * m0 + 60)] = [[]; []; []] /\
+  run (init_state d_f9a_restart) [ORestart; OTick m0 (60 * m0); OTick (m0 + 1) (60 * m0 + 60); OTick (m0 + 2) (60 * m0 + 120)]
+    = [[]; []; []; []] /\
+  restarts (entry_of (final (init_state d_f9a_restart) [ORestart]) "d0.yaml") = [feb30] /\
+  next feb30 (60 * m0 - 1) = None.
+Proof. vm_compute. repeat split. Qed.
 
-(* F9a: the restart entry is invoked at every tick *)
-Theorem restart_iff_refuted : exists d ops,
-  run (init_state d) ops = [[]; [CRestart "d0.yaml"]; [CRestart "d0.yaml"]; [CRestart "d0.yaml"]] /\
-  forallb (fun m => negb (matches feb30 m)) [m0; m0 + 1; m0 + 2] = true /\
-  restarts (entry_of (final (init_state d) ops) "d0.yaml") = [feb30].
-Proof.
-  exists d_f9a_restart, [ORestart; OTick m0 (60 * m0); OTick (m0 + 1) (60 * m0 + 60); OTick (m0 + 2) (60 * m0 + 120)].
-  split; [vm_compute; reflexivity|]. split; vm_compute; reflexivity.
-Qed.
-
-(* F9b: two start schedules of one DAG matching the same minute give two Start calls in that tick, although
-   both are within the horizon: start_once fails without its premise, and so does no_double *)
+(* F9b: two start schedules of one DAG matching the same minute give two Start calls in that tick: start_once
+   fails without its premise, and so does no_double *)
 Theorem start_once_refuted : exists s m f e,
-  NoDup (map fst (tbl s)) /\ lookup f (tbl s) = Some e /\ in_horizon m (starts e) /\
+  NoDup (map fst (tbl s)) /\ lookup f (tbl s) = Some e /\
   count (CStart f) (tick_calls s m) = 2%nat.
 Proof.
   exists (after d_f9b [ORestart]), m0, "d0.yaml", (entry_of (after d_f9b [ORestart]) "d0.yaml").
   split; [apply nodupb_ok; vm_compute; reflexivity|].
   split; [vm_compute; reflexivity|].
-  split; [apply in_horizonb_spec; vm_compute; reflexivity|].
   vm_compute. reflexivity.
 Qed.
 
@@ -148,15 +135,14 @@ Proof. vm_compute. repeat split. Qed.
 (* ---------------------------------------------------------------------------------------- *)
 Definition d_sat := [("d0.yaml", file (SMap [(KStr "start", MStr "*/2 * * * *"); (KStr "stop", MStr "0 18 * * *")])); ("zz.yaml", CBad)].
 
-(* start_iff: a table within the horizon; the tick of a matching minute starts the DAG once *)
+(* start_iff: the tick of a matching minute starts the DAG once *)
 Example start_iff_sat : exists s m f e,
-  NoDup (map fst (tbl s)) /\ lookup f (tbl s) = Some e /\ in_horizon m (starts e) /\
+  NoDup (map fst (tbl s)) /\ lookup f (tbl s) = Some e /\
   count (CStart f) (tick_calls s m) = 1%nat /\ count (CStart f) (tick_calls s (m + 1)) = 0%nat.
 Proof.
   exists (after d_sat [ORestart]), m0, "d0.yaml", (entry_of (after d_sat [ORestart]) "d0.yaml").
   split; [apply nodupb_ok; vm_compute; reflexivity|].
   split; [vm_compute; reflexivity|].
-  split; [apply in_horizonb_spec; vm_compute; reflexivity|].
   split; vm_compute; reflexivity.
 Qed.
 
